@@ -229,8 +229,12 @@ class Access:
         self.field, self.kind, self.node, self.site, self.fn = field, kind, node, site, fn
         self.method, self.const, self.partial = method, const, partial
 
+    READ_METHODS = {'find', 'end', 'begin', 'cbegin', 'cend', 'lower_bound', 'upper_bound', 'equal_range', 'size', 'empty', 'count', 'front', 'back', 'at', 'data', 'get', 'rbegin', 'rend', 'c_str', 'length', 'capacity', 'max_size', 'key_comp'}
+
     @property
     def is_write(self):
+        if self.kind == 'method' and self.method in self.READ_METHODS:
+            return False
         return self.kind in ('assign', 'compound', 'incdec', 'move', 'exchange', 'swap', 'refarg', 'addr', 'ref') or \
             (self.kind == 'method' and not self.const)
 
